@@ -292,3 +292,177 @@ func genLimitBig(r *rand.Rand, id string) *Case {
 }
 
 func init() { generators["limitbig"] = genLimitBig }
+
+// idIndex extracts (seed, index) from a case id "<camp>-<seed>-<index>".
+func idIndex(id string) (int64, int) {
+	parts := strings.Split(id, "-")
+	if len(parts) < 3 {
+		return 0, 0
+	}
+	s, _ := strconv.ParseInt(parts[len(parts)-2], 10, 64)
+	i, _ := strconv.Atoi(parts[len(parts)-1])
+	return s, i
+}
+
+const segVariants = 5
+
+// genSeg (C03): the same client byte stream under five segmentations (group = base index):
+// all at once, one byte per read, dense irregular cuts (every header is split somewhere),
+// random cuts, every third byte.
+func genSeg(_ *rand.Rand, id string) *Case {
+	seed, i := idIndex(id)
+	base := i / segVariants
+	r := rand.New(rand.NewSource(seed*7919 + int64(base)*31 + 17))
+	c := genSession(r, id)
+	c.Camp = "seg"
+	c.RF, c.WF = false, -1
+	c.Extra["grp"] = strconv.Itoa(base)
+	n := len(c.In)
+	var cuts []int
+	switch i % segVariants {
+	case 0:
+	case 1:
+		for k := 1; k < n; k++ {
+			cuts = append(cuts, k)
+		}
+	case 2:
+		for k := 1; k < n; k++ {
+			if m := k % 7; m >= 1 && m <= 4 {
+				cuts = append(cuts, k)
+			}
+		}
+	case 3:
+		r2 := rand.New(rand.NewSource(seed + int64(i)))
+		for k := 1; k < n; k++ {
+			if r2.Intn(5) == 0 {
+				cuts = append(cuts, k)
+			}
+		}
+	case 4:
+		for k := 3; k < n; k += 3 {
+			cuts = append(cuts, k)
+		}
+	}
+	c.Cuts = cuts
+	return c
+}
+
+// genAccessor (C03): buffer.Reader accessors called directly on a message body.
+func genAccessor(r *rand.Rand, id string) *Case {
+	c := baseCase(id, "accessor")
+	c.Extra["direct"] = "accessor"
+	n := r.Intn(24)
+	body := make([]byte, n)
+	for i := range body {
+		switch r.Intn(4) {
+		case 0:
+			body[i] = 0
+		default:
+			body[i] = byte(r.Intn(256))
+		}
+	}
+	c.In = body
+	nops := r.Intn(10)
+	ops := make([]string, nops)
+	for i := range ops {
+		switch r.Intn(5) {
+		case 0:
+			ops[i] = "s"
+		case 1:
+			ops[i] = "b" + strconv.Itoa(r.Intn(8))
+		case 2:
+			ops[i] = "u2"
+		case 3:
+			ops[i] = "u4"
+		case 4:
+			ops[i] = "b" + strconv.Itoa([]int{0, 1, n, n + 1, 1 << 20, 1 << 40}[r.Intn(6)])
+		}
+	}
+	c.Extra["ops"] = strings.Join(ops, ",")
+	return c
+}
+
+func init() {
+	generators["seg"] = genSeg
+	generators["accessor"] = genAccessor
+}
+
+// filler returns n bytes for an unread region: variant 0 zeros, 1 random non-zero, 2 text that
+// looks like protocol strings.
+func filler(r *rand.Rand, variant, n int) []byte {
+	b := make([]byte, n)
+	switch variant {
+	case 0:
+	case 1:
+		for i := range b {
+			b[i] = byte(1 + r.Intn(255))
+		}
+	default:
+		src := []byte("a\x00b\x00\x00\x01\x00\x00\x00\x00\x00")
+		for i := range b {
+			b[i] = src[(i+variant)%len(src)]
+		}
+	}
+	return b
+}
+
+const surplusVariants = 3
+
+// genSurplus (C03): identical message sequences that differ only in bytes no handler reads
+// (Parse parameter OIDs, bytes after the last field of a message). Every variant of a group
+// must produce the identical result; empty-bodied messages of field-reading types follow the
+// filler-carrying ones so that a leak changes the outcome.
+func genSurplus(_ *rand.Rand, id string) *Case {
+	seed, i := idIndex(id)
+	base := i / surplusVariants
+	variant := i % surplusVariants
+	r := rand.New(rand.NewSource(seed*104729 + int64(base)*13 + 5)) // structure: same for the group
+	c := baseCase(id, "surplus")
+	c.Extra["grp"] = strconv.Itoa(base)
+	in := plainStartup("u")
+	n := 1 + r.Intn(6)
+	withFill := func(m []byte, k int) []byte {
+		// append k filler bytes to a complete message and fix its length
+		fr := rand.New(rand.NewSource(seed + int64(i)*977 + int64(len(in))))
+		m = append(m[:len(m):len(m)], filler(fr, variant, k)...)
+		copy(m[1:5], be32(uint32(len(m)-1)))
+		return m
+	}
+	for j := 0; j < n; j++ {
+		k := r.Intn(9)
+		name := pick(r, namePool)
+		var m []byte
+		switch r.Intn(7) {
+		case 0:
+			m = withFill(msgQuery(probeQuery("Q"+strconv.Itoa(j), 0)), k)
+		case 1:
+			// Parse: the parameter OIDs are announced but never read
+			noids := r.Intn(3)
+			body := append(cstr(name), cstr("t/25/r:t61;c:"+hxs("X")+"/ok")...)
+			body = append(body, be16(uint16(noids))...)
+			fr := rand.New(rand.NewSource(seed + int64(i)*31 + int64(j)))
+			body = append(body, filler(fr, variant, 4*noids+k)...)
+			m = typed('P', body)
+		case 2:
+			m = withFill(msgBind(name, name, nil, nil, nil), k)
+		case 3:
+			m = withFill(msgDescribe([]byte("SP")[r.Intn(2)], name), k)
+		case 4:
+			m = withFill(msgExecute(name, 0), k)
+		case 5:
+			m = withFill(msgClose([]byte("SP")[r.Intn(2)], name), k)
+		case 6:
+			m = withFill(msgSync(), k)
+		}
+		in = append(in, m...)
+		if r.Intn(3) == 0 {
+			// an empty-bodied message of a type whose handler reads fields
+			in = append(in, typed([]byte("EBDPCQ")[r.Intn(6)], nil)...)
+		}
+	}
+	in = append(in, msgSync()...)
+	c.In = in
+	return c
+}
+
+func init() { generators["surplus"] = genSurplus }
